@@ -178,7 +178,7 @@ Lemma search_frame h0 : closed P h0 -> forall fuel m, Forall fgood (mfr m) ->
 Proof.
   intros C. induction fuel as [|fuel IH]; intros m Hfr; [simpl; auto|].
   cbn [search]. destruct (sstep_frame m C Hfr) as [E G]. rewrite E.
-  destruct (sstep h0 fresh newid m) as [m'|tr m'| |k]; cbn [kgood] in G; simpl; auto.
+  destruct (sstep h0 fresh newid m) as [m'|tr m'| |k m']; cbn [kgood] in G; simpl; auto.
 Qed.
 
 End CF.
